@@ -3,6 +3,7 @@ package props
 import (
 	"os"
 	"path/filepath"
+	"runtime"
 	"strings"
 	"testing"
 
@@ -16,7 +17,33 @@ import (
 
 // C04 — platform and pipeline filters hold for every result on every path.
 
-var c04FirstWords = []string{"git", "docker", "tar", "curl", "npm", "grep", "apt", "ipconfig", "systemctl", "dir", "brew", "GIT", "Get-Process"}
+var c04FirstWords = []string{"git", "docker", "tar", "curl", "npm", "grep", "apt", "ipconfig", "systemctl", "dir", "brew", "GIT", "Get-Process",
+	// near misses: a recognised tool name is only a prefix / suffix / part of the first word
+	"gitk", "lsof", "findstr", "gofmt", "nodejs", "sshd", "git-lfs", "tarball", "rmdir", "azcopy", "catdoc", "xgit", "kubectl", "az", "7z", "Docker"}
+
+// Tools named as cross-platform in the code's own table (a subset, as of the pinned commit) and
+// first words that are certainly none. c04IsTool decides these itself - a command is a
+// recognised tool when its first blank-delimited word IS a tool name, whatever the letter case -
+// and asks the code only about first words outside both lists, so that a loosened matching
+// rule (prefix instead of word) is not mirrored by the oracle.
+var c04Tools = map[string]bool{"git": true, "docker": true, "tar": true, "curl": true, "npm": true, "grep": true, "kubectl": true, "az": true, "7z": true, "ls": true, "cat": true, "find": true, "sed": true, "awk": true, "go": true, "cp": true, "mv": true, "rm": true, "ssh": true, "node": true}
+var c04NonTools = map[string]bool{"apt": true, "ipconfig": true, "systemctl": true, "dir": true, "brew": true, "get-process": true, "gitk": true, "lsof": true, "findstr": true, "gofmt": true, "nodejs": true,
+	"sshd": true, "git-lfs": true, "tarball": true, "rmdir": true, "azcopy": true, "catdoc": true, "xgit": true, "mkdir": true, "chmod": true, "ps": true, "df": true, "du": true, "list": true, "show": true, "files": true, "file": true}
+
+func c04IsTool(command string) bool {
+	lower := strings.ToLower(command)
+	first := lower
+	if i := strings.IndexByte(lower, ' '); i >= 0 {
+		first = lower[:i]
+	}
+	switch {
+	case c04Tools[first]:
+		return true
+	case c04NonTools[first]:
+		return false
+	}
+	return database.VerifIsCrossPlatformTool(command)
+}
 
 // c04Cmd draws an entry whose command often starts with a (non-)cross-platform tool name.
 func c04Cmd() *rapid.Generator[database.Command] {
@@ -30,8 +57,19 @@ func c04Cmd() *rapid.Generator[database.Command] {
 	})
 }
 
+// c04Host names the host operating system independently of the code under test.
+func c04Host() string {
+	if runtime.GOOS == "darwin" {
+		return "macos"
+	}
+	return runtime.GOOS
+}
+
 func c04Anchors(t *rapid.T) {
-	for cmd, want := range map[string]bool{"git status": true, "ipconfig /all": false, "systemctl start x": false, "tar -xzf a.tgz": true} {
+	if got := database.VerifHostPlatform(); ref.CanonPlatform(got) != ref.CanonPlatform(c04Host()) {
+		t.Fatalf("the platform in force for the host is %q on %s", got, runtime.GOOS)
+	}
+	for cmd, want := range map[string]bool{"git status": true, "ipconfig /all": false, "systemctl start x": false, "tar -xzf a.tgz": true, "gitk --all": false, "GIT status": true, "git": true, "findstr x": false, "xgit y": false} {
 		if got := database.VerifIsCrossPlatformTool(cmd); got != want {
 			t.Fatalf("cross-platform tool rule: %q recognised=%v, documented expectation %v", cmd, got, want)
 		}
@@ -39,7 +77,7 @@ func c04Anchors(t *rapid.T) {
 }
 
 func c04Violation(c *database.Command, opt database.SearchOptions) string {
-	if ref.PlatformViolation(c, opt, database.VerifHostPlatform(), database.VerifIsCrossPlatformTool) {
+	if ref.PlatformViolation(c, opt, c04Host(), c04IsTool) {
 		return "platform"
 	}
 	if opt.PipelineOnly && !ref.IsPipeline(c) {
@@ -217,13 +255,13 @@ func TestC04_CLI(t *testing.T) {
 		}
 		for _, it := range items {
 			c := database.Command{Command: it.Command, Platform: it.Platforms}
-			if ref.PlatformViolation(&c, opt, database.VerifHostPlatform(), database.VerifIsCrossPlatformTool) {
+			if ref.PlatformViolation(&c, opt, c04Host(), c04IsTool) {
 				t.Fatalf("wtf %q printed %q platforms=%v, not eligible under the flags\n db=%v", args, it.Command, it.Platforms, gen.BriefDB(cmds, 14))
 			}
 		}
 		nontrivial := false
 		for i := range cmds {
-			if ref.PlatformViolation(&cmds[i], opt, database.VerifHostPlatform(), database.VerifIsCrossPlatformTool) && ref.FoldSubsequence(q, cmds[i].Command+" "+cmds[i].Description) {
+			if ref.PlatformViolation(&cmds[i], opt, c04Host(), c04IsTool) && ref.FoldSubsequence(q, cmds[i].Command+" "+cmds[i].Description) {
 				nontrivial = true
 			}
 		}
